@@ -33,6 +33,9 @@ def _job(args):
     res = {'config': {'capacity': cap_mode, 'handler': handler, 'A': A, 'D': D, 'P': P, 'Q': Q, 'builder_order': order, 'producers': nprod}, 'findings': [], 'queries': [],
            'error': None, 'programs': {}, 'vacuity': {}}
     try:
+        rendezvous = cap_mode == 'rendezvous'
+        if rendezvous:
+            cap_mode = 'bounded'        # same code paths; only the channel's semantics differ
         x = qm.Extraction(prog, cap_mode, handler, timeout_ms=60000, order=order)
         for w in ('emit', 'clone', 'drop', 'worker', 'flush', 'stats'):
             x.run_program(w)
@@ -91,7 +94,7 @@ def _job(args):
                 which = [c for (p_, c), f in vs.items() if z3.is_true(ms.eval(f, model_completion=True))]
                 res['findings'].append({'prop': 'C15', 'clause': ','.join(which), 'static': False, 'scenario': {'kind': 'queue-sampler'},
                                         'detail': 'schedule: ' + ' | '.join('%s:%s' % (s_['thread'], s_['op']) for s_ in steps)})
-        pr = qm.Product(x, A, D, P, Q, timeout_ms=timeout_ms, producers=nprod)
+        pr = qm.Product(x, A, D, P, Q, timeout_ms=timeout_ms, producers=nprod, rendezvous=rendezvous)
         pr.encode()
         res['edges'] = len(pr.E)
         v = {k: c for k, c in pr.violations().items() if k[0] == pid}
@@ -112,8 +115,25 @@ def _job(args):
             res['vacuity'][name] = r
             if r != 'sat':
                 res['error'] = 'vacuity twin %s is %s (the model cannot reach the situations the property is about within D=%d)' % (name, r, D)
+        extra = []
+        if rendezvous and v:
+            # the history of the known finding is split off: it is queried (and replayed) on its own, every other
+            # violation of the same clauses is still reported
+            pat = pr.marker_lost_before_park()
+            extra = [z3.Not(pat)]
+            rk, mk, dtk = pr.check(z3.And(z3.Or(*v.values()), pat))
+            res['queries'].append({'q': 'known-history:cap0-marker-lost-before-park', 'res': rk, 's': round(dtk, 2)})
+            if rk == 'unknown':
+                res['error'] = 'solver unknown on the known-history query'
+            if rk == 'sat':
+                steps, capv = pr.trace_of(mk)
+                which = [clause for (_, clause), c in v.items() if z3.is_true(mk.eval(c, model_completion=True))]
+                sc = qm.scenario_from_trace(steps, capv, handler)
+                sc['builder_order'] = order
+                res['findings'].append({'prop': pid, 'clause': ','.join(which), 'static': False, 'scenario': sc, 'known_key': 'queue:cap0-marker-lost-before-park',
+                                        'detail': 'schedule: ' + ' | '.join('%s:%s' % (s_['thread'], s_['op']) for s_ in steps)})
         if v:
-            r, m, dt = pr.check(z3.Or(*v.values()))
+            r, m, dt = pr.check(z3.Or(*v.values()), extra)
         else:
             r, m, dt = 'unsat', None, 0.0
         res['queries'].append({'q': 'clauses-of-%s' % pid, 'res': r, 's': round(dt, 2), 'clauses': [c for (_, c) in v]})
@@ -124,7 +144,7 @@ def _job(args):
             for (prop, clause), c in v.items():
                 byprop.setdefault(prop, []).append((clause, c))
             for prop, cl in byprop.items():
-                r2, m2, dt2 = pr.check(z3.Or(*[c for _, c in cl]))
+                r2, m2, dt2 = pr.check(z3.Or(*[c for _, c in cl]), extra)
                 res['queries'].append({'q': 'clauses-of-' + prop, 'res': r2, 's': round(dt2, 2)})
                 if r2 == 'unknown':
                     res['error'] = 'solver unknown on the product query for ' + prop
@@ -146,7 +166,7 @@ ASSUMPTIONS = [
     'atomics: SC interleaving; Arc: strong count, pointee dropped when it reaches 0; thread::spawn starts a thread running the closure; unwinding out of a thread ends only that thread',
     'the wrapped sink and the error handler are environment: each delivery returns Ok / Err(e) / panics (<= P panics per history); the handler returns normally',
     'statistics counters that no thread program loads are folded into the preceding step (they commute with every other operation); adjacent independent steps are explored in one order only (partial-order reduction)',
-    'capacity 0 (rendezvous channel) is outside the model',
+    'capacity 0 (C08, C09, C11): crossbeam\'s zero-capacity flavour - try_send succeeds iff a receiver is parked in recv (direct hand-over), recv = park then wait, is_empty/is_full constantly true',
 ]
 
 
@@ -169,6 +189,10 @@ def run(out, replay_path=None):
         for handler in (True, False):
             for (A, D, P, Q) in bounds_for(out.tier, cap_mode):
                 jobs.append((cap_mode, handler, A, D, P, Q, pid, 3000000 if thorough else 600000, 'ch'))
+    if pid in ('C08', 'C09', 'C11'):
+        # capacity 0: crossbeam's rendezvous flavour (C10 is stated for capacities >= 1 only)
+        for handler in ((True, False) if thorough else (True,)):
+            jobs.append(('rendezvous', handler, 3, 24 if thorough else 20, 1, 0, pid, 3000000 if thorough else 600000, 'ch'))
     if thorough:
         # two producer threads (each with its own handles; a clone may be handed to the other thread)
         jobs.append(('bounded', True, 4, 18, 0, 1, pid, 3000000, 'ch', 2))
@@ -227,11 +251,24 @@ def run(out, replay_path=None):
             'solver_time_s': round(st, 2), 'functions_encoded': sorted(fns), 'stubs': sorted(stubs_),
             'bounds': {'configs': [r['config'] for r in results],
                        'meaning': 'A = producer actions (emit/clone/drop, symbolic script), D = visible steps, P = wrapped-sink panics, Q = max bounded capacity (1..Q symbolic)',
-                       'outside': 'histories needing more than D steps; > A actions; > P panics; concurrent producers (emit is one channel op + a commuting counter update, see DESIGN); capacity 0'},
+                       'outside': 'histories needing more than D steps; > A actions; > P panics; concurrent producers in the quick tier (emit is one channel op + a commuting counter update, see DESIGN)'},
             'vacuity': vac, 'mir': dinfo,
             'samples': [{'worker_and_emit_paths': results[0].get('sample_paths', [])}, {'initial_state_after_build': results[0].get('init')}],
         },
     }
+    known_conf = [(f, hit) for f, hit in confirmed if f.get('known_key')]
+    confirmed = [(f, hit) for f, hit in confirmed if not f.get('known_key')]
+    kseen = set()
+    for f, hit in known_conf:
+        # a listed history (known_findings.json decides whether it is reported as KNOWN-FINDING or as a violation)
+        if f['known_key'] not in kseen:
+            kseen.add(f['known_key'])
+            out.violations.append({'key': f['known_key'], 'what': '%s (capacity 0): %s' % (hit[0]['clause'], hit[0]['detail']),
+                                   'scenario': dict(f['scenario']), 'native': hit})
+    for f in mine:
+        if f.get('known_key') and f['known_key'] not in kseen:
+            out.notes.append('the history %s is possible in the model but did not reproduce natively' % f['known_key'])
+    mine = [f for f in mine if not f.get('known_key')]
     if errors and not confirmed:
         for e in errors[:3]:
             out.inconclusive.append(e)
@@ -248,5 +285,5 @@ def run(out, replay_path=None):
         return
     if mine:
         out.inconclusive.append('the solver reports a violation of %s (%s: %s) but it was not reproduced natively' % (pid, mine[0]['clause'], mine[0]['detail'][:400]))
-    elif findings:
-        out.notes.append('obligations of other properties are violated on this tree: %s' % sorted(set((f['prop'], f['clause']) for f in findings)))
+    elif [f for f in findings if f['prop'] != pid]:
+        out.notes.append('obligations of other properties are violated on this tree: %s' % sorted(set((f['prop'], f['clause']) for f in findings if f['prop'] != pid)))
